@@ -18,12 +18,17 @@ from gen import c10ypgen as G
 
 KNOWN_COMMENT = "block comment containing a line starting with '/' after a newline is terminated early"
 KNOWN_ACTION_SPAN = "action span is computed from the trimmed action text and does not skip the whitespace after '{'"
+KNOWN_LITERAL_BRACE = "braces inside literals/comments of action code are counted"
+KNOWN_ACTIONTYPE_LAYOUT = "blanks and comments after an action type are part of the type"
 
 # After the proposed repairs are applied to /repo set these to True: the mirror is then run in its
 # repaired variant and the corresponding known-defect classification is switched off.
 COMMENT_FIXED = True
 ACTION_SPAN_FIXED = False
-MODEL_FLAGS = (" fc" if COMMENT_FIXED else "") + (" fa" if ACTION_SPAN_FIXED else "")
+# /repo 69c4b9b (pos_prod_end.get_or_insert(i) at an action's brace): the production span ends with the last item
+# also when an action follows.  False = the pinned variant of the mirror and of the oracle (span up to the brace).
+PROD_SPAN_FIXED = True
+MODEL_FLAGS = (" fc" if COMMENT_FIXED else "") + (" fa" if ACTION_SPAN_FIXED else "") + (" fp" if PROD_SPAN_FIXED else "")
 
 CORPUS = [
     ("O", "%%\nA: /* a\n// b */ 'a';"),                       # DESIGN §9 comment defect
@@ -43,6 +48,13 @@ CORPUS = [
     ("O", "%parse-param a\n"), ("O", "%parse-param a:\n"), ("O", "%parse-param a: b"), ("O", "%actiontype"),
     ("E", "%actiontype T\n%%\nA: ;"), ("O", "%implicit_tokens a\n%%\nA: ;"), ("O", "%unknown"),
     ("O", "\u00a0%%\nA: ;"), ("O", "%%\nA: ; %% \u00a0 p"), ("O", "%%\nA\u00a0: ;"),
+    # production span with layout before the action (/repo 69c4b9b), several unknown %epp (3e32e4e)
+    ("N", "%%\nS: 'a' 'b'   /* build the pair */\n    { x }\n  ;"), ("O", "%%\nS: 'a' 'b' { x };"), ("O", "%%\nS: %empty /* c */ { x } | 'a' %prec 'a' // c\n { y };"),
+    ("O", "%start S\n%epp U1 'one'\n%epp U2 'two'\n%epp U3 'three'\n%epp U4 'four'\n%epp U5 'five'\n%epp U6 'six'\n%%\nS: 'a';\n"),
+    ("E", "%implicit_tokens ws\n%epp ws 'blank'\n%epp U2 'two'\n%epp 'a' 'A'\n%epp U1 'one'\n%%\nS: 'a';\n"),
+    # the witnesses of the two known findings (C10/YpRoundFindings.v)
+    ("G", "%%\nS -> String:\n    'a' { \"{\".to_string() }\n  | 'b' { \"}\".to_string() }\n  ;\n"), ("G", "%%\nS -> char: 'a' { '}' } ;\n"),
+    ("O", "%actiontype u32  \n%%\nS: 'a' { 1 };"), ("G", "%%\nS -> u32 // note: the value\n : 'a' { 1 };"),
 ]
 
 
@@ -82,6 +94,96 @@ def badspans_are_action_spans(text, a):
     return True
 
 
+def colon_pairs_only(t):
+    """every ':' of the text belongs to a '::' pair, read left to right (YpRoundSpec.colon_scan)"""
+    i = 0
+    while i < len(t):
+        if t[i] == ":":
+            if t[i + 1:i + 2] != ":":
+                return False
+            i += 2
+        else:
+            i += 1
+    return True
+
+
+def run_unknown_epp(ctx, rng, exe, mexe, clean):
+    """/repo 3e32e4e: of several %epp declarations for tokens the grammar does not have, validation reports the one
+    declared FIRST (it used to be whichever the randomly seeded HashMap iterated first).  Valid printed grammars get
+    2..6 %epp lines for unknown names (plus some for known tokens / implicit tokens, which are not errors) inserted at
+    the start and at the end of their declarations; expected: exactly one error, UnknownEPP of the first unknown name in
+    source order, its span on that name; and the whole transcript equals the mirror's (kind argument and span included)."""
+    cases = []
+    base = [p for p in clean if len(p[1]) < 3000]          # valid grammars: the oracle found no difference
+    for _ in range(ctx.n(700, 6000)):
+        kind, text, exp, style, ag, _ = rng.choice(base)
+        nl = "\r\n" if style == "crlf" else "\n"
+        taken = set(exp["tokens"]) | {r["name"] for r in exp["rules"]} | set(exp["epp"]) | set((exp["implicit"] or {}))
+        unknown, n_unknown = [], rng.randint(2, 6)
+        while len(unknown) < n_unknown:
+            n = rng.choice(["U", "Unk", "zz", "T_", "e"]) + str(rng.randint(0, 99)) if rng.random() < 0.8 else rng.choice(["?", "!=", "a b", "\u00e9\u00e9", "->"])
+            if n not in taken and n not in unknown:
+                unknown.append(n)
+        known = [t for t in exp["tokens"] if t not in exp["epp"] and "'" not in t and '"' not in t and "\n" not in t]
+        known += [t for t in (exp["implicit"] or {}) if t not in exp["epp"] and t not in known]
+        rng.shuffle(known)
+        decls = [(n, False) for n in unknown] + [(n, True) for n in known[:rng.randint(0, 2)]]
+        rng.shuffle(decls)
+        cut = rng.randint(0, len(decls))
+        pre, post = decls[:cut], decls[cut:]
+
+        def epp_lines(ds, off):
+            out, spans = "", {}
+            for n, _ in ds:
+                ident = n[0] in G.IDENT0 and all(c in G.IDENT for c in n)
+                q = "" if ident and rng.random() < 0.5 else rng.choice("'\"")
+                head = "%epp" + rng.choice([" ", "  ", "\t"])
+                s0 = off + G.blen(out) + G.blen(head)
+                spans[n] = ((s0 + len(q), s0 + len(q) + G.blen(n)), (s0, s0 + G.blen(n) + 2 * len(q)))
+                out += head + q + n + q + " " + rng.choice(["'v'", '"some text"', "'\\''"]) + rng.choice(["", " ", " // c"]) + nl
+            return out, spans
+        a_txt, a_sp = epp_lines(pre, 0)
+        pp = G.blen(a_txt) + exp["pp_pos"]
+        b_txt, b_sp = epp_lines(post, pp)
+        bt = text.encode("utf-8")
+        # the declarations end with a gap that may be a // comment without newline?  no: every gap before '%%' that ends a
+        # line-bound declaration holds its newline; a fresh line is forced all the same
+        mid = bt[:exp["pp_pos"]].decode("utf-8")
+        need_nl = mid != "" and mid[-1] not in "\r\n"
+        if need_nl:
+            b_txt, b_sp = epp_lines(post, pp + G.blen(nl))
+            b_txt = nl + b_txt
+        new = a_txt + mid + b_txt + bt[exp["pp_pos"]:].decode("utf-8")
+        order = [n for n, kn in pre + post if not kn]
+        first = order[0]
+        sp = (a_sp if first in a_sp else b_sp)[first]
+        cases.append((kind, new, first, sp, len(order)))
+    lines = ["%s %s" % (k, hexs(t)) for k, t, _, _, _ in cases]
+    impl = core.run_lines([exe], lines)
+    model = core.run_lines([mexe], [l + MODEL_FLAGS for l in lines])
+    n_bad = n_tie = 0
+    for (kind, text, first, sp, n_unk), line, a, m in zip(cases, lines, impl, model):
+        ctx.count("unknown_epp_case_kind_" + kind)
+        ctx.count("unknown_epp_declarations_%d" % n_unk)
+        ctx.case("U " + line, True, {"kind": kind, "text": text[:300]})
+        tr = G.parse_transcript(strip_bad(a)) if a[:2] in ("OK", "ER") else None
+        want = ("UnknownEPP", "x" + first.encode("utf-8").hex())
+        ok = tr is not None and tr["head"] == "ERRS 1" and len(tr["errors"]) == 1 and tr["errors"][0][:2] == want and \
+            tuple(tr["errors"][0][2]) in (sp[0], sp[1])
+        if not ok:
+            n_bad += 1
+            ctx.violation({"what": "several %%epp declarations name unknown tokens: the error must be UnknownEPP of the one declared first "
+                                   "(%r at %r), whatever the hash order" % (first, sp), "kind": kind, "text": text,
+                           "errors": tr and tr["errors"], "impl": a[:600],
+                           "replay_cmd": "echo '%s' | .work/target/release/c10yp" % line})
+        if strip_bad(a) != m:
+            n_tie += 1
+            report_tie(ctx, kind, text, line, a, m)
+    ctx.oblige(n_bad == 0, "of several unknown %epp keys the first declared is reported")
+    ctx.coverage["unknown_epp_cases"] = len(cases)
+    return n_tie
+
+
 def run_part(ctx, tag="C10b"):
     exe = core.build_harness("c10yp")
     mexe = core.build_model("c10yp")
@@ -89,22 +191,71 @@ def run_part(ctx, tag="C10b"):
 
     # ---------------------------------------------------------------- (i) printed grammars
     printed = []                                       # (kind, text, exp, style, ag, lay)
+    extra = []                                         # per printed case: literal-brace actions, after-type layouts, twin text/exp
     n_ag = ctx.n(220, 2500)
+    # fixed abstract grammars first: the witnesses of the two known findings and of the production-span repair
+    fixed_ags = [
+        {"kind": "G", "declared": [], "precs": [], "start": None, "expect": None, "expectrr": None, "actiontype": None,
+         "parse_param": None, "parse_generics": None, "implicit_tokens": None, "avoid_insert": None, "epp": [], "programs": None,
+         "rules": [{"name": "S", "actiont": "String", "prods": [
+             {"syms": [("T", "a")], "prec": None, "action": '"{".to_string()', "empty_kw": False},
+             {"syms": [("T", "b")], "prec": None, "action": '"}".to_string()', "empty_kw": False}]}]},
+        {"kind": "G", "declared": [], "precs": [], "start": None, "expect": None, "expectrr": None, "actiontype": None,
+         "parse_param": None, "parse_generics": None, "implicit_tokens": None, "avoid_insert": None, "epp": [], "programs": None,
+         "rules": [{"name": "S", "actiont": "char", "prods": [
+             {"syms": [("T", "a")], "prec": None, "action": "'{'", "empty_kw": False},
+             {"syms": [("T", "b")], "prec": None, "action": "'}'", "empty_kw": False},
+             {"syms": [("T", "c")], "prec": None, "action": "'c'", "empty_kw": False}]}]},
+        {"kind": "O", "declared": [], "precs": [("left", ["b"])], "start": None, "expect": None, "expectrr": None, "actiontype": "u32",
+         "parse_param": None, "parse_generics": None, "implicit_tokens": None, "avoid_insert": None, "epp": [], "programs": None,
+         "rules": [{"name": "S", "actiont": None, "prods": [
+             {"syms": [("T", "a"), ("T", "b")], "prec": None, "action": "x", "empty_kw": False},
+             {"syms": [("T", "a")], "prec": "b", "action": "1 // }\n+ 2", "empty_kw": False},
+             {"syms": [], "prec": None, "action": 'format!("{}", $1)', "empty_kw": True}]}]},
+    ]
     for gi in range(n_ag):
-        ag = G.random_grammar(rng)
+        ag = fixed_ags[gi] if gi < len(fixed_ags) else G.random_grammar(rng)
+        lits = sorted({p["action"] for r in ag["rules"] for p in r["prods"] if G.literal_brace_action(p["action"])})
         for style in G.Layout.STYLES:
+            st0 = rng.getstate()
             lay = G.Layout(rng, style)
             text, exp = G.render(ag, lay)
             printed.append((ag["kind"], text, exp, style, ag, lay.trigger_used))
+            twin = None
+            if lits or lay.at_layout_used:
+                # the twin: the same random choices with the two known-finding families neutralised
+                st1 = rng.getstate()
+                rng.setstate(st0)
+                tlay = G.Layout(rng, style)
+                tlay.neutral = True
+                twin = G.render(ag, tlay)
+                rng.setstate(st1)
+            extra.append({"lits": lits, "at": list(lay.at_layout_used), "twin": twin, "pre_action": lay.pre_action_layout})
     lines = ["%s %s" % (k, hexs(t)) for k, t, _, _, _, _ in printed]
     impl = core.run_lines([exe], lines)
     model = core.run_lines([mexe], [l + MODEL_FLAGS for l in lines])
     fixed_lines = [l + " fc" + MODEL_FLAGS for l, p in zip(lines, printed) if p[5]]
     fixed_out = dict(zip(fixed_lines, core.run_lines([mexe], fixed_lines)))
+    twin_idx = [i for i, x in enumerate(extra) if x["twin"] is not None]
+    twin_out = dict(zip(twin_idx, core.run_lines([exe], ["%s %s" % (printed[i][0], hexs(extra[i]["twin"][0])) for i in twin_idx])))
     n_oracle_bad = n_tie_bad = n_known_comment = n_known_action = 0
-    for (kind, text, exp, style, ag, trig), line, a, m in zip(printed, lines, impl, model):
+    known_lit, known_at = [], []
+    clean = []                                         # printed cases that went through the oracle without any difference
+    n_pre_action = n_pre_action_comment = 0
+    for ci, ((kind, text, exp, style, ag, trig), line, a, m) in enumerate(zip(printed, lines, impl, model)):
+        ex = extra[ci]
         ctx.count("layout_" + style)
         ctx.count("kind_" + kind)
+        if ex["lits"]:
+            ctx.count("printed_with_literal_brace_action")
+        if ex["at"]:
+            ctx.count("printed_with_layout_after_action_type")
+        bt = text.encode("utf-8")
+        for pe in exp["prods"]:
+            if pe["action"] is not None and pe["items"] and pe["after"] > pe["items"][-1][1]:
+                n_pre_action += 1
+                if b"/" in bt[pe["items"][-1][1]:pe["after"]]:
+                    n_pre_action_comment += 1
         nontriv = len(exp["prods"]) >= 2 and (len(exp["tokens"]) >= 2)
         ctx.case("P " + line, nontriv, {"kind": kind, "layout": style, "text": text[:400]})
         if a.startswith("PANIC") or a.startswith("HANG") or a.startswith("CRASH"):
@@ -113,9 +264,11 @@ def run_part(ctx, tag="C10b"):
             n_oracle_bad += 1
             continue
         tr = G.parse_transcript(strip_bad(a))
-        diffs = G.oracle(text, exp, tr)
+        diffs = G.oracle(text, exp, tr, PROD_SPAN_FIXED)
         if " # BADSPAN" in a and (ACTION_SPAN_FIXED or not badspans_are_action_spans(text, a)):
             diffs.append(("span", "span off a character boundary / out of range: " + a[a.index(" # BADSPAN"):][:80]))
+        if not [x for x in diffs if x[0] != "action-span"] and strip_bad(a) == m:
+            clean.append(printed[ci])
         # ---- classify
         unexplained = []
         for cls, detail in diffs:
@@ -135,11 +288,49 @@ def run_part(ctx, tag="C10b"):
             # known comment defect: the repaired scan (mirror with fixed=true, proved to skip such comments:
             # ws_skips_layout_fixed) must give exactly the expected AST
             fo = fixed_out.get(line + " fc" + MODEL_FLAGS, "")
-            fd = [x for x in G.oracle(text, exp, G.parse_transcript(fo)) if x[0] != "action-span"] if fo[:2] in ("OK", "ER") else [("result", fo)]
+            fd = [x for x in G.oracle(text, exp, G.parse_transcript(fo), PROD_SPAN_FIXED) if x[0] != "action-span"] if fo[:2] in ("OK", "ER") else [("result", fo)]
             if not fd:
                 n_known_comment += 1
                 ctx.violation({"what": "block comment ended early", "kind": kind, "text": text, "detail": unexplained[:3]},
                               known_key=KNOWN_COMMENT)
+                unexplained = []
+        if unexplained and ex["twin"] is not None:
+            # the two known classes.  Common conditions: the implementation does what the mirror does (whose scanners are
+            # the plain ones the theorems describe), and the TWIN of this text — the same grammar under the same random
+            # layout choices, with only the literal-brace actions' braces replaced / the text after action types removed —
+            # goes through the oracle without any difference: the deviation is caused by those characters alone.
+            ttext, texp = ex["twin"]
+            to = twin_out[ci]
+            twin_ok = to[:2] == "OK" and not [x for x in G.oracle(ttext, texp, G.parse_transcript(strip_bad(to)), PROD_SPAN_FIXED)
+                                             if x[0] != "action-span"]
+            cls_known = None
+            if twin_ok and strip_bad(a) == m:
+                if ex["lits"]:
+                    # (3) some action is legal Rust whose braces balance only when literals/comments are skipped
+                    cls_known = "lit"
+                else:
+                    # (4) layout after an action type: either every difference is an action type that equals the expected one
+                    # once comments are stripped and the rest trimmed, or a comment there holds a single ':' (which ends the
+                    # type: any outcome)
+                    colon = any(not colon_pairs_only(t) for _, t in ex["at"])
+                    only_types = all(c == "actiontype" for c, _ in unexplained) and tr["head"] == "OK" and \
+                        len(tr["rules"]) == len(exp["rules"]) and \
+                        all(ra["actiont"] == re_["actiont"] or
+                            (ra["actiont"] is not None and G.strip_type_comments(ra["actiont"]) == re_["actiont"])
+                            for ra, re_ in zip(tr["rules"], exp["rules"]))
+                    if only_types or colon:
+                        cls_known = "at"
+            if cls_known == "lit":
+                known_lit.append((kind, text, ex["lits"]))
+                ctx.violation({"what": "braces inside string/char literals or comments of an action are counted", "kind": kind,
+                               "text": text, "actions": ex["lits"], "detail": [list(x) for x in unexplained[:3]]},
+                              known_key=KNOWN_LITERAL_BRACE)
+                unexplained = []
+            elif cls_known == "at":
+                known_at.append((kind, text, ex["at"]))
+                ctx.violation({"what": "blanks/comments after an action type become part of the type", "kind": kind,
+                               "text": text, "after_type": ex["at"], "detail": [list(x) for x in unexplained[:3]]},
+                              known_key=KNOWN_ACTIONTYPE_LAYOUT)
                 unexplained = []
         if unexplained:
             n_oracle_bad += 1
@@ -150,8 +341,27 @@ def run_part(ctx, tag="C10b"):
             n_tie_bad += 1
             report_tie(ctx, kind, text, line, a, m)
     ctx.oblige(n_oracle_bad == 0, "print-then-parse oracle")
+    # the layouts that separate the repaired production span from the pinned one must be there in every run
+    ctx.oblige(n_pre_action_comment >= 20, "productions with blanks/comments between the last item and the action's brace were generated")
+    ctx.count("productions_with_layout_before_action_brace", n_pre_action)
+    ctx.count("productions_with_comment_before_action_brace", n_pre_action_comment)
     ctx.count("known_comment_defect_cases", n_known_comment)
     ctx.count("known_action_span_cases", n_known_action)
+    ctx.count("known_literal_brace_cases", len(known_lit))
+    ctx.count("known_actiontype_layout_cases", len(known_at))
+    ctx.c10_known_notes = getattr(ctx, "c10_known_notes", {})
+    if known_lit:
+        k0, t0, l0 = known_lit[0]
+        ctx.c10_known_notes[KNOWN_LITERAL_BRACE] = "%s (%d cases, first: kind %s, action %r in %r)" % (
+            KNOWN_LITERAL_BRACE, len(known_lit), k0, l0[0], t0[:160])
+    if known_at:
+        k0, t0, l0 = known_at[0]
+        ctx.c10_known_notes[KNOWN_ACTIONTYPE_LAYOUT] = "%s (%d cases, first: kind %s, %r after the type in %r)" % (
+            KNOWN_ACTIONTYPE_LAYOUT, len(known_at), k0, l0[0][1], t0[:160])
+
+    # ---------------------------------------------------------------- (i') several unknown %epp declarations
+    n_epp_bad = run_unknown_epp(ctx, rng, exe, mexe, clean)
+    n_tie_bad += n_epp_bad
 
     # ---------------------------------------------------------------- (ii) mutated sources
     muts = []
@@ -219,7 +429,10 @@ def run_part(ctx, tag="C10b"):
     ctx.oblige(n_tie_bad == 0, "implementation = mirror on printed and mutated sources")
     ctx.coverage["rule"] = (
         "%d random abstract grammars (all directives, 3 yacc kinds, tokens with quotes/multi-byte/comment-like names) x %d layouts "
-        "(dense, airy, comment-heavy, CRLF+tabs, multi-byte, %%token-names+shuffled declarations, known-defect trigger); oracle = "
+        "(dense, airy, comment-heavy, CRLF+tabs, multi-byte, %%token-names+shuffled declarations, known-defect trigger; extra blanks/comments "
+        "between the last item of a production and its action's brace; blanks/comments after action types; 3 fixed grammars = the witnesses "
+        "of the known findings; actions incl. legal Rust with braces in string/char literals and comments); production span = first item .. "
+        "end of last item exactly; valid printed grammars + 2..6 %%epp for unknown names -> UnknownEPP(first declared); oracle = "
         "names/order/symbols/precedences/epp/avoid_insert/expect/actions/action types/start/programs + every span against the "
         "printer's positions; then mutated (truncate/insert/delete/replace/move/duplicate), all truncations and a multi-byte char "
         "at every offset of sampled sources, random token soup: whole transcript impl vs extracted mirror. non-trivial = >=2 "
@@ -230,9 +443,12 @@ def run_part(ctx, tag="C10b"):
         "regex crate: '.' excludes only \\n, leftmost-first alternation, lazy +? (RE_TOKEN), greedy * (RE_NAME) as modelled by re_token/re_name",
         "usize = u64 (parse::<usize>); str::trim = Unicode White_Space set as listed in YpModel.is_whitespace",
         "sources carry no %grmtools section (yacc kind passed through the API); sources that start with one are skipped here (header mirror: C12)",
-        "layout domain of the oracle: values read to end of line (%actiontype, %parse-param type, %parse-generics) are followed directly by the newline; "
-        "a Grmtools action type is separated from ':' by blanks only; no layout between '%%' and the programs text is part of the programs",
-        "HashMap iteration order in complete_and_validate's %epp check is canonicalised by the harness (first declared unknown key)",
+        "layout domain of the oracle: %parse-param types and %parse-generics values are followed directly by the newline; no layout between "
+        "'%%' and the programs text is part of the programs; blanks/comments after an action type (%actiontype value, Grmtools `-> type`) "
+        "ARE generated: deviations there are the known class C10-actiontype-layout (twin text without them must be clean)",
+        "actions of the pool that are legal Rust with braces inside literals/comments and not balanced under a plain count are the known "
+        "class C10-action-literal-brace (classifier: gen/c10ypgen.py literal_brace_action + clean twin + implementation = mirror)",
+        "errors are compared as reported (no canonicalisation): of several unknown %epp keys the first declared must be reported (/repo 3e32e4e)",
     ]
 
 
